@@ -854,7 +854,18 @@ class TorConfig:
             # v will be txtorcon.DEFAULT_VALUE already from
             # parse_keywords if it was unspecified
             real_name = self._find_real_name(k)
-            if real_name in self.parsers:
+            if real_name.lower() in [x.lower() for x in self.list_parsers]:
+                # list-valued options stay (tracked) lists, whether
+                # Tor reports no, one or several values
+                if v == DEFAULT_VALUE:
+                    v = self._defaults.get(real_name, [])
+                if real_name in self.parsers and not isinstance(v, list):
+                    v = self.parsers[real_name].parse(v)
+                if not isinstance(v, list):
+                    v = [v]
+                v = _ListWrapper(
+                    v, functools.partial(self.mark_unsaved, real_name))
+            elif real_name in self.parsers:
                 v = self.parsers[real_name].parse(v)
             self.config[real_name] = v
 
